@@ -1,10 +1,10 @@
 SPECIFICATION MCSpec
 CONSTANTS
   Relax = {}
-  MaxAdds = 2
+  MaxAdds = 1
   Amounts = {600000}
   MaxFee = 0
-  MaxDisc = 0
+  MaxDisc = 1
   QLen = 3
   MaxCrash = 1
   ChanType = "static"
